@@ -1,11 +1,12 @@
 \* owner role: own chain, permissions, missing-token requests, incoming attestations
 SPECIFICATION MCSpec
-CONSTANTS AlreadyChecked = TRUE PkPerAuthority = TRUE CheckSubject = TRUE CheckPermission = TRUE Window = 300 RespCap = 10 FitAll = 8
+CONSTANTS AlreadyChecked = TRUE PkPerAuthority = TRUE CheckSubject = TRUE CheckPermission = TRUE CommitBeforeSend = TRUE Window = 300 RespCap = 10 FitAll = 8
   Regs = {} Senders = {} TokIdx = {} MdIdx = {} AttIdx = {} MissIdx = {}
-  Ticks = {} OwnerPeers = {1, 2} KnownVals = {0, 1, 2, 5} AttSend = {1, 2, 4} RegFirst = FALSE
-  MaxReg = 0 MaxMsg = 3 MaxTick = 0 MaxOwn = 3
+  Ticks = {} OwnerPeers = {1, 2} KnownVals = {0, 1, 2, 5} AttSend = {1, 2, 4} RegFirst = FALSE FaultTabs = {}
+  MaxReg = 0 MaxMsg = 3 MaxTick = 0 MaxOwn = 3 MaxFault = 0
 INVARIANT TypeOK
 INVARIANT SignsOnlyConsented
 INVARIANT StoresOnlyValidlySigned
 INVARIANT TokensOnlyUpToPermitted
 INVARIANT TreesVerified
+INVARIANT SentOnlyRecorded
